@@ -548,9 +548,7 @@ def gen_case(rng, two_starstar=False, loose=False):
                  and not star_adjacent_to_variable(c.atoms_b)
                  and not any(n in c.enva.resolved or n in c.envb.resolved
                              for n in ("s1", "1a", "st", "self", "m1", "android_locale")))
-    # a rooted pattern whose first node is a wildcard raises KeyError in the root test
-    if (roota and c.atoms_a[0][0] in ("S", "SS")) or (rootb and c.atoms_b[0][0] in ("S", "SS")):
-        c.grammar = False
+    # (a rooted pattern whose first node is a wildcard is relative to the root)
     c.grammar_but_two = c.grammar
     if two_starstar:
         c.grammar = False
@@ -567,12 +565,22 @@ def root_prefix(side, rendered):
     return root.rstrip("/") + "/" if root != "/" else "//"
 
 
+def root_prefix_atoms(side, atoms, env):
+    """the root decision is taken on the first segment: a leading wildcard (and an empty
+    pattern) is relative to the root, else the text of the first node decides"""
+    if not atoms or atoms[0][0] in ("S", "SS"):
+        first = ""
+    else:
+        first = render(atoms[:1], env, []) or ""
+    return root_prefix(side, first)
+
+
 def expected_path(c, which, fills):
     atoms, env, side = ((c.atoms_a, c.enva, c.a) if which == "a" else (c.atoms_b, c.envb, c.b))
     r = render(atoms, env, fills)
     if r is None:
         return None
-    return root_prefix(side, r) + r
+    return root_prefix_atoms(side, atoms, env) + r
 
 
 # --------------------------------------------------------------------------
@@ -993,9 +1001,12 @@ def run_wild_first(chk, model, n):
         env = [("v", rng.choice(["q", "a-b"])), ("locale", rng.choice(["de", "fr"]))]
         if rng.random() < 0.3:
             env = env[:1]
-        side = (pat, env, None)
+        root = rng.choice([None, None, "/r", "/src/one", "/data/c++/strings"])
+        side = (pat, env, root)
+        want_prefix = "" if root is None else root + "/"
         extra = [("unused", "u")] if rng.random() < 0.5 else [("v", "zz")]
         chk.count(("wild-first", side, tuple(extra)))
+        chk.hist("wild_first", "rooted" if root else "unrooted")
         got = impl_prefix(side)
         copy = impl_result(lambda: mk(side).with_env(dict(extra)).prefix)
         desc += [("prefix", side), ("prefix-with_env", side, extra)]
@@ -1005,20 +1016,25 @@ def run_wild_first(chk, model, n):
                                if extra[0][0] not in dict(env) else
                                [[canon(k), canon(dict(extra).get(k, v))] for k, v in env], sx[2]])]
         for what, g in (("prefix", got), ("prefix-of-with_env-copy", copy)):
-            if g != [0, []]:
-                chk.fail("wildcard-first-prefix-not-empty", {"side": side, "extra_env": extra, "what": what},
-                         {"got": g, "expected": ""})
+            if g != [0, canon(want_prefix)]:
+                chk.fail("wildcard-first-prefix-wrong", {"side": side, "extra_env": extra, "what": what},
+                         {"got": g, "expected": want_prefix})
         # every matched path starts with the prefix
         fills = {"*": rng.choice(["a", "q.b", ""]), "**": rng.choice(["", "d/", "d/e/"])}
         path = pat.replace("**/", fills["**"]).replace("**", fills["**"] + "f").replace("*", fills["*"])
         for k, v in env:
             path = path.replace("{%s}" % k, v)
+        path = want_prefix + path
         m = impl_match(side, path)
         desc.append(("match", side, path))
         impl.append(m)
         reqs.append((2, sx + [canon(path)]))
         if m[0] == 0 and m[1] and got[0] == 0 and not path.startswith(common.l2s(got[1])):
             chk.fail("match-outside-prefix", {"side": side, "path": path}, {"prefix": common.l2s(got[1])})
+        if ("{locale}" not in pat or dict(env).get("locale")) and not re.search(r"\*\*(?!/|$)", pat):
+            # a filled path under the root matches (no exception, no miss)
+            if not (m[0] == 0 and m[1]):
+                chk.fail("wildcard-first-filled-path-not-matched", {"side": side, "path": path}, {"got": m})
     if model:
         outs = model.call(reqs)
         chk.correspond("WILDCARD-FIRST", desc, impl, outs)
